@@ -1,8 +1,193 @@
-/- EmdModel.CycleStats — (stub; filled in by the property that owns it) -/
-import EmdModel.Protocol
+/-
+  EmdModel.CycleStats — model of per-cycle statistics, their projection back to samples,
+  phase alignment and phase binning (C14):
+
+    emd/_cycles_support.py: get_cycle_stat_from_samples, project_cycles_to_samples
+    emd/cycles.py:          get_cycle_stat (mode='cycle'), phase_align (mode='cycle', linear),
+                            bin_by_phase (unweighted mean / variance)
+
+  The reducing function of `cycleStat` is an arbitrary parameter.  Interpolation is scipy's
+  linear `interp1d(..., bounds_error=False, fill_value='extrapolate')`: stable sort by abscissa,
+  `searchsorted` clipped to [1, n-1], straight line through the two neighbours (so the two end
+  segments extrapolate), computed exactly in ℚ.  Bin centres / edges are inputs (they come
+  from the real `spectra.define_hist_bins`).
+-/
+import EmdModel.Maps
 
 namespace CycleStats
+open Maps
 
-def handle (_o : Protocol.Op) : Option String := none
+/-- `vals[inds]` for an index array -/
+def gather {α : Type} (vals : List α) (inds : List Nat) : List α := inds.filterMap (vals[·]?)
+
+/-- get_cycle_stat_from_samples: `ncycles = max(cycle_vect) + 1`, entry k = func(vals[cycle k's samples]) -/
+def cycleStat {β : Type} (f : List Rat → β) (vals : List Rat) (cv : List Int) : List β :=
+  (List.range (nLabels cv)).map fun k => f (gather vals (mapCycleToSamples cv k))
+
+/-- the values whose label is k, in recording order (the specification side) -/
+def valuesWithLabel (vals : List Rat) (cv : List Int) (k : Nat) : List Rat :=
+  ((vals.zip cv).filter fun p => p.2 = (k : Int)).map (·.1)
+
+/-! ## reducing functions known to the driver (NaN = none) -/
+
+def mean? (l : List Rat) : Option Rat := if l.isEmpty then none else some (Sig.sum l / l.length)
+
+def maxOf : List Rat → Option Rat
+  | [] => none
+  | a :: t => some (t.foldl (fun m v => if m < v then v else m) a)
+
+abbrev Reducer := List Rat → Except Err (Option Rat)
+
+def reducer? : String → Option Reducer
+  | "mean" => some fun l => .ok (mean? l)
+  | "max" => some fun l => match maxOf l with | some m => .ok (some m) | none => .error .valueError
+  | "sum" => some fun l => .ok (some (Sig.sum l))
+  | "len" => some fun l => .ok (some (l.length : Rat))
+  | "first" => some fun l => match l.head? with | some a => .ok (some a) | none => .error .indexError
+  | "last" => some fun l => match l.getLast? with | some a => .ok (some a) | none => .error .indexError
+  -- lambda v: float(np.sum(v * v) - 3 * v[0])
+  | "lambda" => some fun l => match l.head? with
+      | some a => .ok (some (Sig.sumSq l - 3 * a))
+      | none => .error .indexError
+  | _ => none
+
+/-- results in cycle order; the first raising cycle aborts the call -/
+def sequence {α : Type} : List (Except Err α) → Except Err (List α)
+  | [] => .ok []
+  | .error e :: _ => .error e
+  | .ok a :: t => match sequence t with
+    | .ok r => .ok (a :: r)
+    | .error e => .error e
+
+/-- emd.cycles.get_cycle_stat(cycles, values, out=..., func=f), mode='cycle' -/
+def getCycleStat (f : Reducer) (vals : List Rat) (cv : List Int) (samples : Bool) :
+    Except Err (List (Option Rat)) :=
+  if cv.isEmpty then .error .valueError            -- max of an empty array
+  else if cv.length ≠ vals.length then .error .valueError
+  else match sequence (cycleStat f vals cv) with
+    | .error e => .error e
+    | .ok stats => .ok (if samples then projectCyclesToSamples stats cv else stats)
+
+/-! ## phase alignment -/
+
+/-- insertion keeping earlier-equal elements first (stable) -/
+def insertPt (p : Rat × Rat) : List (Rat × Rat) → List (Rat × Rat)
+  | [] => [p]
+  | q :: t => if p.1 ≤ q.1 then p :: q :: t else q :: insertPt p t
+
+/-- `np.argsort(x, kind='mergesort')` applied to the (x, y) pairs -/
+def sortPts (l : List (Rat × Rat)) : List (Rat × Rat) := l.foldr insertPt []
+
+/-- `searchsorted(xs, t)` (side='left') on sorted abscissae: how many lie strictly below t -/
+def searchLeft (pts : List (Rat × Rat)) (t : Rat) : Nat := pts.countP (·.1 < t)
+
+/-- scipy `interp1d._call_linear` at one point, on sorted points; NaN (`none`) when fewer than
+    two points or when the bracketing segment has zero width -/
+def linInterp (pts : List (Rat × Rat)) (t : Rat) : Option Rat :=
+  if pts.length < 2 then none
+  else
+    let idx := min (max (searchLeft pts t) 1) (pts.length - 1)
+    match pts[idx - 1]?, pts[idx]? with
+    | some lo, some hi =>
+      if hi.1 = lo.1 then none
+      else some ((hi.2 - lo.2) / (hi.1 - lo.1) * (t - lo.1) + lo.2)
+    | _, _ => none
+
+/-- one column of phase_align: interpolate x over phase within one cycle, evaluate on the bins;
+    an empty cycle makes interp1d raise -/
+def alignCycle (ip x : List Rat) (inds : List Nat) (bins : List Rat) : Except Err (List (Option Rat)) :=
+  let pts := sortPts ((gather ip inds).zip (gather x inds))
+  if pts.isEmpty then .error .valueError else .ok (bins.map (linInterp pts))
+
+/-- phase_align(ip, x, cycles=cv, npoints=|bins|), mode='cycle', linear: one column per cycle -/
+def phaseAlign (ip x : List Rat) (cv : List Int) (bins : List Rat) : Except Err (List (List (Option Rat))) :=
+  if cv.isEmpty then .error .valueError
+  else if cv.length ≠ ip.length ∨ ip.length ≠ x.length then .error .valueError
+  else sequence ((List.range (nLabels cv)).map fun k => alignCycle ip x (mapCycleToSamples cv k) bins)
+
+/-! ## phase binning -/
+
+/-- `np.digitize(v, edges)` for increasing edges: number of edges ≤ v -/
+def digitize (edges : List Rat) (v : Rat) : Nat := edges.countP (· ≤ v)
+
+/-- population variance about the mean, NaN when empty -/
+def var? (l : List Rat) : Option Rat :=
+  match mean? l with
+  | none => none
+  | some m => mean? (l.map fun v => (v - m) * (v - m))
+
+/-- the observations whose phase falls in bin b (digitize index b+1) -/
+def binValues (edges ip x : List Rat) (b : Nat) : List Rat :=
+  ((ip.zip x).filter fun p => digitize edges p.1 = b + 1).map (·.2)
+
+/-- bin_by_phase, unweighted: per bin the mean and the variance of its observations -/
+def binByPhase (edges ip x : List Rat) : List (Option Rat × Option Rat) :=
+  (List.range (edges.length - 1)).map fun b =>
+    let s := binValues edges ip x b
+    (mean? s, var? s)
+
+/-- `np.average(values, weights=w)` on (weight, value) pairs: Σ w·v / Σ w; NaN when the bin is
+    empty (the weighted branch skips empty bins and leaves the initial NaN) -/
+def wmean? (l : List (Rat × Rat)) : Option Rat :=
+  if l.isEmpty then none
+  else some (Sig.sum (l.map fun p => p.1 * p.2) / Sig.sum (l.map (·.1)))
+
+/-- the (weight, observation) pairs whose phase falls in bin b -/
+def binPairs (edges ip w x : List Rat) (b : Nat) : List (Rat × Rat) :=
+  ((ip.zip (w.zip x)).filter fun p => digitize edges p.1 = b + 1).map (·.2)
+
+/-- bin_by_phase with `weights=`: per bin the weighted mean of its observations (positive weights) -/
+def binByPhaseW (edges ip w x : List Rat) : List (Option Rat) :=
+  (List.range (edges.length - 1)).map fun b => wmean? (binPairs edges ip w x b)
+
+/-! ## protocol -/
+
+open Protocol
+
+def fmtEx (r : Except Err (List (Option Rat))) : String :=
+  match r with
+  | .ok v => "ok | " ++ fmtOptRats v
+  | .error e => "err " ++ e.name
+
+def handle (o : Op) : Option String :=
+  match o.name with
+  | "CSTAT" => some <| Id.run do
+      let some fname := o.str? "f" | return "bad-op"
+      let some f := reducer? fname | return "bad-op"
+      let some outm := o.str? "out" | return "bad-op"
+      let samples ← match outm with
+        | "cycles" => pure false
+        | "samples" => pure true
+        | _ => return "bad-op"
+      let some vals := o.vec? 0 | return "bad-op"
+      let some cvr := o.vec? 1 | return "bad-op"
+      let some cv := toInts? cvr | return "bad-op"
+      return fmtEx (getCycleStat f vals cv samples)
+  | "PALIGN" => some <| Id.run do
+      let some ip := o.vec? 0 | return "bad-op"
+      let some x := o.vec? 1 | return "bad-op"
+      let some cvr := o.vec? 2 | return "bad-op"
+      let some cv := toInts? cvr | return "bad-op"
+      let some bins := o.vec? 3 | return "bad-op"
+      match phaseAlign ip x cv bins with
+      | .error e => return "err " ++ e.name
+      | .ok cols => return s!"ok n={cols.length}" ++ String.join (cols.map fun c => " | " ++ fmtOptRats c)
+  | "BINPH" => some <| Id.run do
+      let some edges := o.vec? 0 | return "bad-op"
+      let some ip := o.vec? 1 | return "bad-op"
+      let some x := o.vec? 2 | return "bad-op"
+      if ip.length ≠ x.length then return "bad-op"
+      let r := binByPhase edges ip x
+      return "ok | " ++ fmtOptRats (r.map (·.1)) ++ " | " ++ fmtOptRats (r.map (·.2))
+  | "BINPHW" => some <| Id.run do
+      let some edges := o.vec? 0 | return "bad-op"
+      let some ip := o.vec? 1 | return "bad-op"
+      let some w := o.vec? 2 | return "bad-op"
+      let some x := o.vec? 3 | return "bad-op"
+      if ip.length ≠ x.length ∨ ip.length ≠ w.length then return "bad-op"
+      -- only positive weights are modelled (np.average raises ZeroDivisionError on a zero weight sum)
+      if w.any (· ≤ 0) then return "bad-op"
+      return "ok | " ++ fmtOptRats (binByPhaseW edges ip w x)
+  | _ => none
 
 end CycleStats
